@@ -25,8 +25,8 @@ class PrefixReached(Exception):
         self.prefix = prefix
 
 
-class LazyU:
-    """Uniform(0,1) variate resolved only by comparisons with floats."""
+class _UBase:
+    """One Uniform(0,1) variate, known only to lie in (lo, hi); narrowed by the comparisons made on it."""
 
     __slots__ = ("rng", "lo", "hi")
 
@@ -35,19 +35,45 @@ class LazyU:
         self.lo = 0.0
         self.hi = 1.0
 
-    def _lt(self, x):
-        x = float(x)
-        if x <= self.lo:
+    def below(self, thr):
+        """Decide the event U < thr (consistently with earlier decisions)."""
+        if thr <= self.lo:
             return False
-        if x >= self.hi:
+        if thr >= self.hi:
             return True
-        p = (x - self.lo) / (self.hi - self.lo)
+        p = (thr - self.lo) / (self.hi - self.lo)
         b = self.rng._decide("u<", [p, 1.0 - p])
         if b == 0:
-            self.hi = x
+            self.hi = thr
             return True
-        self.lo = x
+        self.lo = thr
         return False
+
+
+class LazyU:
+    """a*U + b for a lazily resolved Uniform(0,1) variate U: supports order comparisons with numbers and affine
+    arithmetic with numbers (so `(i + rng.random()) / n` works); anything else raises RNGMachineryError."""
+
+    __slots__ = ("base", "a", "b")
+
+    def __init__(self, rng, base=None, a=1.0, b=0.0):
+        self.base = base if base is not None else _UBase(rng)
+        self.a = float(a)
+        self.b = float(b)
+
+    def _num(self, x):
+        if isinstance(x, LazyU):
+            raise RNGMachineryError("arithmetic / comparison between two lazy uniforms is not supported")
+        return float(x)
+
+    def _lt(self, x):
+        x = self._num(x)
+        if self.a == 0.0:
+            return self.b < x
+        thr = (x - self.b) / self.a
+        if self.a > 0:
+            return self.base.below(thr)          # a U + b < x  <=>  U < thr
+        return not self.base.below(thr)          # a U + b < x  <=>  U > thr   (ties have probability zero)
 
     def __lt__(self, x):
         return self._lt(x)
@@ -61,11 +87,34 @@ class LazyU:
     def __ge__(self, x):
         return not self._lt(x)
 
-    def _bad(self, *a, **k):
-        raise RNGMachineryError("lazy uniform used outside an order comparison")
+    def __add__(self, c):
+        return LazyU(None, self.base, self.a, self.b + self._num(c))
 
-    __float__ = __add__ = __radd__ = __sub__ = __rsub__ = __mul__ = __rmul__ = _bad
-    __truediv__ = __rtruediv__ = __neg__ = __bool__ = __int__ = __index__ = _bad
+    __radd__ = __add__
+
+    def __sub__(self, c):
+        return LazyU(None, self.base, self.a, self.b - self._num(c))
+
+    def __rsub__(self, c):
+        return LazyU(None, self.base, -self.a, self._num(c) - self.b)
+
+    def __mul__(self, c):
+        c = self._num(c)
+        return LazyU(None, self.base, self.a * c, self.b * c)
+
+    __rmul__ = __mul__
+
+    def __truediv__(self, c):
+        c = self._num(c)
+        return LazyU(None, self.base, self.a / c, self.b / c)
+
+    def __neg__(self):
+        return LazyU(None, self.base, -self.a, -self.b)
+
+    def _bad(self, *a, **k):
+        raise RNGMachineryError("lazy uniform used outside order comparisons / affine arithmetic")
+
+    __float__ = __rtruediv__ = __bool__ = __int__ = __index__ = __pow__ = __rpow__ = _bad
     __array__ = _bad
 
     def __eq__(self, other):
